@@ -151,6 +151,10 @@ func (e *Enc) instr(in ssa.Instruction, st *State) {
 				arrSorts["G|reached|"+key] = "Bool"
 				st.m["G|reached|"+key] = "true"
 			}
+			if _, ok := e.iterSites[key]; ok {
+				arrSorts["G|iter|"+key] = "Bool"
+				st.m["G|iter|"+key] = "true"
+			}
 			for ai, a := range e.con.Asserts {
 				if a.Callee == site && (a.Ordinal == ord || a.Ordinal < 0) {
 					e.assertHit[ai] = true
@@ -270,6 +274,18 @@ func (e *Enc) instr(in ssa.Instruction, st *State) {
 		e.set(in, e.freshVal("idx", in.Type()))
 	case *ssa.MapUpdate:
 		e.mapUpdate(in, st)
+		// ghost site "mapupdate#n" (n-th m[k] = v of the function in source order): reached() / thisiter() only
+		{
+			key := fmt.Sprintf("mapupdate#%d", e.mapUpdateOrdinal(in))
+			if e.ghostSites[key] {
+				arrSorts["G|reached|"+key] = "Bool"
+				st.m["G|reached|"+key] = "true"
+			}
+			if _, ok := e.iterSites[key]; ok {
+				arrSorts["G|iter|"+key] = "Bool"
+				st.m["G|iter|"+key] = "true"
+			}
+		}
 	case *ssa.MakeMap:
 		e.makeMap(in, st)
 	case *ssa.MakeSlice, *ssa.MakeClosure:
@@ -856,6 +872,24 @@ func (e *Enc) storeOrdinal(in *ssa.Store, site string) int {
 		}
 	}
 	return e.storeOrd[in]
+}
+
+func (e *Enc) mapUpdateOrdinal(in *ssa.MapUpdate) int {
+	var all []*ssa.MapUpdate
+	for _, b := range e.fn.Blocks {
+		for _, ins := range b.Instrs {
+			if mu, ok := ins.(*ssa.MapUpdate); ok {
+				all = append(all, mu)
+			}
+		}
+	}
+	sort.SliceStable(all, func(i, j int) bool { return all[i].Pos() < all[j].Pos() })
+	for i, mu := range all {
+		if mu == in {
+			return i
+		}
+	}
+	return -1
 }
 
 // strlt: Go's < on strings (bytewise lexicographic order) as an uninterpreted strict total order.
